@@ -46,6 +46,9 @@ func aTableMeta(d *aDB) *types.TableMeta {
 		if k == d.auto {
 			cm.Extra = "auto_increment"
 		}
+		if d.isNullable(k) {
+			cm.IsNullable = 1
+		}
 		m.Columns[c] = cm
 		if d.isPK(k) {
 			pkCols = append(pkCols, cm)
@@ -66,6 +69,10 @@ type c18World struct {
 
 // c18Setup: table t(id pk, a, b) [or composite key (id, uid), a] with two rows
 // of symbolic non-key cells and concrete keys.
+// c18WantNull: column b of the single-key table is nullable and starts as NULL or a
+// value in each row (set by the callers for the "null-" templates).
+var c18WantNull bool
+
 func c18Setup(composite bool, auto ...bool) *c18World {
 	at.Init()
 	undo.RegisterUndoLogManager(undomysql.NewUndoLogManager())
@@ -77,11 +84,16 @@ func c18Setup(composite bool, auto ...bool) *c18World {
 	if len(auto) > 0 && auto[0] {
 		d.auto = 0 // id is AUTO_INCREMENT
 	}
+	if c18WantNull && !composite {
+		d.nullable = []bool{false, false, true}
+	}
 	mk := func(tag string, key int64) aRow {
 		r := aRow{cells: make([]int64, len(d.cols)), present: true}
 		for k, n := range d.cols {
 			if d.isPK(k) {
 				r.cells[k] = key + int64(k)
+			} else if d.isNullable(k) && vrt.Bool(tag+"."+n+".null") {
+				r.set(k, nil)
 			} else {
 				r.cells[k] = vrt.Int64(tag + "." + n)
 			}
@@ -160,10 +172,49 @@ var c18Stmts = []c18Stmt{
 	{"multi-delete-unconditional-first", "DELETE FROM t; DELETE FROM t WHERE id = 10", 0, true, false, nil},
 	{"multi-delete-unconditional-last", "DELETE FROM t WHERE a > 4; DELETE FROM t", 0, true, false, nil},
 	{"update-no-where", "UPDATE t SET b = ?", 1, true, false, nil},
+	// column b nullable, NULL or a value in each row (see c18WantNull)
+	{"null-update-set-literal", "UPDATE t SET b = NULL WHERE id = ?", 1, true, false, nil},
+	{"null-update-set-arg", "UPDATE t SET b = ?, a = ? WHERE id = ?", 3, true, false, nil},
+	{"null-update-where-is-null", "UPDATE t SET a = ? WHERE b IS NULL", 1, true, false, nil},
+	{"null-update-where-not-equal", "UPDATE t SET a = ? WHERE NOT (b = ?)", 2, true, false, nil},
+	{"null-update-arith", "UPDATE t SET b = b + ? WHERE id = 10", 1, true, false, nil},
+	{"null-update-order-by-nullable", "UPDATE t SET a = ? WHERE a > ? ORDER BY b LIMIT 1", 2, true, false, nil},
+	{"null-delete-where-or", "DELETE FROM t WHERE b > ? OR a = ?", 2, true, false, nil},
+	{"null-delete-is-not-null", "DELETE FROM t WHERE b IS NOT NULL", 0, true, false, nil},
+	{"null-insert-literal", "INSERT INTO t (id, a, b) VALUES (?, ?, NULL)", 2, true, false, map[int]int64{0: 30}},
+	{"null-insert-omitted", "INSERT INTO t (id, a) VALUES (?, ?)", 2, true, false, map[int]int64{0: 30}},
+	{"null-insert-arg", "INSERT INTO t (id, a, b) VALUES (?, ?, ?)", 3, true, false, map[int]int64{0: 30}},
+	{"null-upsert-set-null", "INSERT INTO t (id, a, b) VALUES (?, ?, ?) ON DUPLICATE KEY UPDATE b = NULL", 3, true, false, map[int]int64{0: 10}},
 	{"delete-no-where", "DELETE FROM t", 0, true, false, nil},
 }
 
 func c18AutoKey(name string) bool { return strings.HasPrefix(name, "insert-auto-") }
+
+// the templates over the nullable column, and the arguments of theirs that are NULL
+func c18NullTemplate(name string) bool { return strings.HasPrefix(name, "null-") }
+
+var c18NullArgs = map[string]map[int]bool{
+	"null-update-set-arg": {0: true},
+	"null-insert-arg":     {2: true},
+}
+
+func c18Args(st c18Stmt) []driver.NamedValue { return c18ArgsTagged(st, "") }
+
+func c18ArgsTagged(st c18Stmt, prefix string) []driver.NamedValue {
+	args := make([]driver.NamedValue, st.nargs)
+	names := []string{"arg0", "arg1", "arg2", "arg3", "arg4", "arg5", "arg6"}
+	for i := range args {
+		switch kv, ok := st.keyArgs[i]; {
+		case ok:
+			args[i] = driver.NamedValue{Ordinal: i + 1, Value: kv}
+		case c18NullArgs[st.name][i]:
+			args[i] = driver.NamedValue{Ordinal: i + 1, Value: nil}
+		default:
+			args[i] = driver.NamedValue{Ordinal: i + 1, Value: vrt.Int64(prefix + names[i])}
+		}
+	}
+	return args
+}
 
 func c18RowKey(d *aDB, cells []int64) string {
 	var parts []string
@@ -205,7 +256,7 @@ func c18ImageMatches(d *aDB, img *types.RecordImage, want []aRow, full bool) boo
 				if k >= 0 {
 					seen[k] = true
 				}
-				if k >= 0 && d.isPK(k) && col.Value != driver.Value(wr.cells[k]) {
+				if k >= 0 && d.isPK(k) && col.Value != driver.Value(wr.get(k)) {
 					sameKey = false
 				}
 			}
@@ -234,7 +285,7 @@ func c18ImageMatches(d *aDB, img *types.RecordImage, want []aRow, full bool) boo
 			}
 			for _, col := range ir.Columns {
 				k := d.col(col.ColumnName)
-				if k < 0 || col.Value != driver.Value(wr.cells[k]) {
+				if k < 0 || col.Value != driver.Value(wr.get(k)) {
 					return false
 				}
 			}
@@ -276,16 +327,9 @@ func VerifC03LockKeys() { c18Run(false, true) }
 func c18Run(checkImages, checkLocks bool) {
 	k := vrt.Choice("statement", len(c18Stmts))
 	st := c18Stmts[k]
+	c18WantNull = c18NullTemplate(st.name)
 	w := c18Setup(st.composite, c18AutoKey(st.name))
-	args := make([]driver.NamedValue, st.nargs)
-	names := []string{"arg0", "arg1", "arg2", "arg3", "arg4", "arg5", "arg6"}
-	for i := range args {
-		if kv, ok := st.keyArgs[i]; ok {
-			args[i] = driver.NamedValue{Ordinal: i + 1, Value: kv}
-		} else {
-			args[i] = driver.NamedValue{Ordinal: i + 1, Value: vrt.Int64(names[i])}
-		}
-	}
+	args := c18Args(st)
 	tx, err := w.c.BeginTx(w.ctx, driver.TxOptions{})
 	vrt.Assert(err == nil && tx != nil, "c18/begin-ok")
 	var res driver.Result
@@ -336,7 +380,9 @@ func c18Run(checkImages, checkLocks bool) {
 	if len(befores) != 1 || len(afters) != 1 {
 		return
 	}
-	full := !undo.UndoConfig.OnlyCareUpdateColumns || w.d.lastKind != "update"
+	// tracking only the updated columns: an UPDATE records the assigned columns, an INSERT
+	// the listed ones (each plus the key); a DELETE the whole row
+	full := !undo.UndoConfig.OnlyCareUpdateColumns || w.d.lastKind == "delete"
 	upsertUpdated := w.d.lastKind == "insert" && len(w.d.changedBefore) > 0
 	if upsertUpdated {
 		full = true
@@ -353,6 +399,61 @@ func c18Run(checkImages, checkLocks bool) {
 	if len(written) > 0 && checkLocks {
 		vrt.Reach("c03/rows-written")
 		vrt.Assert(c18LockKeysCover(w, written), "c03/lock-keys-cover-written-rows/"+st.name)
+	}
+}
+
+// VerifC03TwoStatements: two statements in one local transaction, the second over
+// the same or other rows, accepted or rejected by the database (the application
+// handles the error and commits): the keys collected for the transaction still
+// name every row the first statement wrote, and the second's when it succeeded.
+func VerifC03TwoStatements() {
+	firsts := []c18Stmt{
+		{"update-by-key", "UPDATE t SET a = ? WHERE id = ?", 2, true, false, map[int]int64{1: 10}},
+		{"delete-by-key", "DELETE FROM t WHERE id = ?", 1, true, false, map[int]int64{0: 20}},
+		{"insert-one", "INSERT INTO t (id, a, b) VALUES (?, ?, ?)", 3, true, false, map[int]int64{0: 30}},
+	}
+	seconds := []c18Stmt{
+		{"update-same-row", "UPDATE t SET b = ? WHERE id = 10", 1, true, false, nil},
+		{"update-by-data", "UPDATE t SET b = ? WHERE a > ?", 2, true, false, nil},
+		{"delete-other-row", "DELETE FROM t WHERE id = 20", 0, true, false, nil},
+		{"upsert-same-row", "INSERT INTO t (id, a, b) VALUES (10, ?, ?) ON DUPLICATE KEY UPDATE a = ?", 3, true, false, nil},
+		{"insert-same-key", "INSERT INTO t (id, a, b) VALUES (30, ?, ?)", 2, true, false, nil},
+	}
+	c18WantNull = false
+	w := c18Setup(false)
+	f, s := firsts[vrt.Choice("first", len(firsts))], seconds[vrt.Choice("second", len(seconds))]
+	tx, err := w.c.BeginTx(w.ctx, driver.TxOptions{})
+	vrt.Assert(err == nil && tx != nil, "c03/two/begin-ok")
+	_, err = w.c.ExecContext(w.ctx, f.query, c18Args(f))
+	vrt.Assert(err == nil && w.d.bad == "", "c03/two/first-statement-accepted/"+f.name)
+	if err != nil || w.d.bad != "" {
+		return
+	}
+	written := w.d.changedBefore
+	if w.d.lastKind == "insert" {
+		written = w.d.changedAfter
+	}
+	written = append([]aRow(nil), written...)
+	if vrt.Bool("second.rejected") {
+		w.d.failExec = w.d.execs + 1
+	}
+	_, err2 := w.c.ExecContext(w.ctx, s.query, c18ArgsTagged(s, "second."))
+	vrt.Observe("second.error", err2 != nil)
+	if w.d.bad != "" {
+		return
+	}
+	vrt.Reach("c03/two/" + f.name + "+" + s.name)
+	if err2 == nil {
+		w2 := w.d.changedBefore
+		if w.d.lastKind == "insert" && len(w.d.changedBefore) == 0 {
+			w2 = w.d.changedAfter
+		}
+		written = append(written, w2...)
+	} else {
+		vrt.Reach("c03/two/second-failed")
+	}
+	if len(written) > 0 {
+		vrt.Assert(c18LockKeysCover(w, written), "c03/two/lock-keys-cover-every-written-row/"+f.name+"+"+s.name)
 	}
 }
 
@@ -453,21 +554,14 @@ func VerifC16InGtx() {
 	if !st.valid {
 		return
 	}
+	c18WantNull = c18NullTemplate(st.name)
 	w := c18Setup(st.composite, c18AutoKey(st.name))
 	// the twin
 	twin := &aDB{table: w.d.table, cols: w.d.cols, pk: w.d.pk, auto: w.d.auto, failAt: -1, nextAuto: w.d.nextAuto}
 	for _, r := range w.d.rows {
-		twin.rows = append(twin.rows, aRow{cells: append([]int64(nil), r.cells...), present: r.present})
+		twin.rows = append(twin.rows, r.clone())
 	}
-	args := make([]driver.NamedValue, st.nargs)
-	names := []string{"arg0", "arg1", "arg2", "arg3", "arg4", "arg5", "arg6"}
-	for i := range args {
-		if kv, ok := st.keyArgs[i]; ok {
-			args[i] = driver.NamedValue{Ordinal: i + 1, Value: kv}
-		} else {
-			args[i] = driver.NamedValue{Ordinal: i + 1, Value: vrt.Int64(names[i])}
-		}
-	}
+	args := c18Args(st)
 	plainRes, plainErr := (&aConn{twin}).ExecContext(context.Background(), st.query, args)
 
 	tx, err := w.c.BeginTx(w.ctx, driver.TxOptions{})
@@ -503,10 +597,8 @@ func VerifC16InGtx() {
 		if a.present != b.present {
 			same = false
 		}
-		for c := 0; same && a.present && c < len(a.cells); c++ {
-			if a.cells[c] != b.cells[c] {
-				same = false
-			}
+		if same && a.present && !aSameRow(a, b) {
+			same = false
 		}
 	}
 	vrt.Assert(same, "gtx/same-data/"+st.name)
@@ -533,7 +625,7 @@ func VerifC16LockingRead() {
 	at.LockConfig = rm.LockConfig{RetryInterval: 10 * time.Millisecond, RetryTimes: 2}
 	twin := &aDB{table: w.d.table, cols: w.d.cols, pk: w.d.pk, auto: w.d.auto, failAt: -1, nextAuto: w.d.nextAuto}
 	for _, r := range w.d.rows {
-		twin.rows = append(twin.rows, aRow{cells: append([]int64(nil), r.cells...), present: r.present})
+		twin.rows = append(twin.rows, r.clone())
 	}
 	args := []driver.NamedValue{{Ordinal: 1, Value: vrt.Int64("arg0")}}
 	q := c03Queries[vrt.Choice("sfu.form", len(c03Queries))]
